@@ -190,6 +190,16 @@ func Num[T Number](name string, idx ...int) T {
 	return T(parseInt(v, bits))
 }
 
+// Choice is a nondeterministic outcome in [0, n) (e.g. which result a stubbed
+// environment call produces); the symbolic run explores every value.
+func Choice(name string, n int, idx ...int) int {
+	v := Int(name, idx...)
+	if v < 0 || v >= n {
+		return 0
+	}
+	return v
+}
+
 func Bool(name string, idx ...int) bool {
 	v, ok := lookup(Name(name, idx...))
 	if ok && strings.Contains(v, "/") {
